@@ -35,6 +35,7 @@ XT = dict(src="C05_xmltree.c", env=["vp_alloc.c", "vp_libc.c"], units=["hwloc/bi
 XT_ENC = ["hwloc__xml_export_topology", "hwloc__xml_v2export_object", "hwloc__xml_export_object_contents", "hwloc__xml_export_info_attr", "hwloc__xml_export_infos", "hwloc_look_xml", "hwloc__xml_import_object", "hwloc__xml_import_object_attr", "hwloc__xml_import_obj_info", "hwloc___xml_import_info", "hwloc__xml_import_pagetype",
           "hwloc_insert_object_by_parent", "hwloc_discover", "hwloc_bitmap_asprintf", "hwloc_bitmap_sscanf", "hwloc_type_sscanf"]
 for nm, d, extra, tiers in (("xml_roundtrip_tree", {"FIX": 0}, [], {"quick": {}, "thorough": {}}),
+                            ("xml_roundtrip_disallowed", {"FIX": 0, "FIXD": 1}, [], {"quick": {}, "thorough": {}}),
                             ("xml_roundtrip_rich", {"FIX": 1, "FIXM": 95}, [], {"quick": {}, "thorough": {}}),
                             ("xml_roundtrip_rich_v2", {"FIX": 1, "FIXM": 95, "XFLAGS": "1UL"}, [], {"quick": {}, "thorough": {}}),
                             ("xml_roundtrip_io", {"FIX": 1, "FIXM": 32}, [], {"thorough": {"timeout": 3000}}),
@@ -44,22 +45,26 @@ for nm, d, extra, tiers in (("xml_roundtrip_tree", {"FIX": 0}, [], {"quick": {},
                             ("xml_roundtrip_memattrs", {"FIX": 0, "WITH_MEMATTR": 3}, ["hwloc__xml_export_memattrs", "hwloc__xml_export_memattr_target", "hwloc__xml_import_memattr", "hwloc__xml_import_memattr_value", "hwloc_internal_memattr_set_value"], {"thorough": {"timeout": 2400}}),
                             ("xml_roundtrip_cpukinds", {"FIX": 0, "WITH_CPUKINDS": 1}, ["hwloc__xml_export_cpukinds", "hwloc__xml_import_cpukind", "hwloc_internal_cpukinds_register", "hwloc_internal_cpukinds_rank"], {"quick": {}, "thorough": {}})):
     HARNESSES.append(dict(XT, name=nm, entry="h_xml_roundtrip", defines=d, encoded=XT_ENC + extra, tiers=tiers, cost=120,
-                          bounds="one fixture topology built by the real core (%s); the run is concrete: CBMC interprets export -> element tree -> import inside the real discovery pipeline -> comparison -> re-export, checking every access" % ("9 objects" if d.get("FIX") == 0 else "9 objects + bridge/PCI/OS device" if d.get("FIXM") == 32 else "13 objects: L2, Group(dont_merge), memory-side cache, page types, Misc, names, subtype, object and topology infos"),
+                          bounds="one fixture topology built by the real core (%s); the run is concrete: CBMC interprets export -> element tree -> import inside the real discovery pipeline -> comparison -> re-export, checking every access" % ("8 objects: a disallowed PU that only remains in the complete_ cpusets" if d.get("FIXD") else "9 objects" if d.get("FIX") == 0 else "9 objects + bridge/PCI/OS device" if d.get("FIXM") == 32 else "13 objects: L2, Group(dont_merge), memory-side cache, page types, Misc, names, subtype, object and topology infos"),
                           core=(d.get("FIXM") != 32 and not d.get("WITH_MEMATTR"))))
 XI = dict(XT, unwind=12)
 XI["unwindset"] = dict(XT_UW, **dict({"h_import_distances.%d" % k: 18 for k in range(6)}, **{"dist_case.0": 5, "dist_case.1": 5, "dist_case.2": 5, "dist_case.3": 5, "dist_case.4": 17, "dist_case.5": 17}))
 C06_EXTRA = []      # the crafted-input harnesses belong to C06 (specs/C06.py takes them from here)
-def _sliced(base, n, quick_slices=None):
-    for k in range(n):
-        h = dict(base); h["name"] = "%s_s%d" % (base["name"], k)
-        h["tiers"] = {t: dict(o, defines=dict(o.get("defines", {}), NSLICE=n, SLICE=k)) for t, o in base["tiers"].items()}
-        h["bounds"] = base["bounds"] + " [slice %d of %d of the enumerated runs]" % (k, n)
+def _sliced(base, n, nt=None):
+    """n quick slices, nt thorough slices (deeper enumerations are dealt to more slices: the cost per run grows with the runs in a slice)"""
+    nt = nt or n
+    for k in range(max(n, nt)):
+        h = dict(base); h["name"] = "%s_s%d" % (base["name"], k); tiers = {}
+        if k < n and "quick" in base["tiers"]: tiers["quick"] = dict(base["tiers"]["quick"], defines=dict(base["tiers"]["quick"].get("defines", {}), NSLICE=n, SLICE=k))
+        if k < nt and "thorough" in base["tiers"]: tiers["thorough"] = dict(base["tiers"]["thorough"], defines=dict(base["tiers"]["thorough"].get("defines", {}), NSLICE=nt, SLICE=k))
+        h["tiers"] = tiers
+        h["bounds"] = base["bounds"] + " [one slice of the enumerated runs: %d slices quick, %d thorough]" % (n, nt)
         C06_EXTRA.append(h)
 for het in (0, 1):
     for ver, ns in ((3, 6), (2, 2)):
         _sliced(dict(XI, name="xml_import_distances%s_v%d" % ("_hetero" if het else "", ver), entry="h_import_distances", checks="safety+", encoded=["hwloc__xml_import_distances", "hwloc___xml_import_info", "hwloc_internal_distances_add_by_index", "hwloc_type_sscanf"],
                     tiers={"quick": {"defines": {"HET": het, "DVER": ver, "DSEQ": 2, "DNB": 2}}, "thorough": {"defines": {"HET": het, "DVER": ver, "DSEQ": 3 if ver == 3 else 2, "DNB": 2}, "timeout": 5000}}, cost=100,
-                    bounds="<distances2%s> of a version-%d document with nbobjs=2: %s all 16 subsets of {name, latency kind, indexing, type} on the complete document; concrete runs selected by symbolic inputs; reference: the documented format" % ("hetero" if het else "", ver, "every sequence of up to 2 (thorough: 3) children over {indexes with 1/2/3 entries, u64values with 1/2/4 entries, info}, and" if ver == 3 else "")), ns)
+                    bounds="<distances2%s> of a version-%d document with nbobjs=2: %s all 16 subsets of {name, latency kind, indexing, type} on the complete document; concrete runs selected by symbolic inputs; reference: the documented format" % ("hetero" if het else "", ver, "every sequence of up to 2 (thorough: 3) children over {indexes with 1/2/3 entries, u64values with 1/2/4 entries, info}, and" if ver == 3 else "")), ns, 30 if ver == 3 else ns)
 _sliced(dict(XI, name="xml_import_cpukind", entry="h_import_cpukind", checks="safety+", encoded=["hwloc__xml_import_cpukind", "hwloc___xml_import_info", "hwloc_internal_cpukinds_register", "hwloc__add_info", "hwloc__free_infos", "hwloc_bitmap_sscanf"],
              unwindset=dict(XT_UW, **{"h_import_cpukind.%d" % k: 7 for k in range(6)}), tiers={"quick": {}, "thorough": {}}, cost=60,
              bounds="<cpukind> elements: cpuset in {valid, empty, unparsable, missing, second kind} x forced_efficiency in {none, 5, -1} x {plain, unknown attribute, unknown child, info without value, complete info} x NO_CPUKINDS, optionally after a first registered kind; concrete runs selected by symbolic inputs (ownership of the cpuset and of the info array on every path: no leak into a double free)"), 8)
